@@ -173,6 +173,8 @@ def run(ctx):
                 "Acquire/TryToAcquire/Release operations on one real lock; distinct by full event sequence; every case "
                 "contains at least one successful acquisition and is therefore non-trivial")
     ctx.assumptions += [
+        "memory model of SpinAsm: the 4-byte lock word followed by 4 neighbour bytes (a non-zero datum, or another lock the "
+        "environment takes and releases); every instruction acts with its operand width (B/W/L/Q)",
         "hardware: XCHG with a memory operand is atomic and drains the store buffer, plain 32-bit loads/stores are single "
         "accesses, x86-TSO store buffers are FIFO (SpinAsm, TSO = TRUE); CALL clobbers every register",
         "the Go atomics used by TryToAcquire/Release are sequentially consistent (Go memory model)",
@@ -193,15 +195,16 @@ def run(ctx):
         # guard against vacuous bounds: no action of the specifications may go untaken (except the ones that
         # exist only for design mutants / variants that are switched off in that configuration)
         coverage_guard(ctx, d, "MCSpinlock", "MCSpinlock3", set())
-        coverage_guard(ctx, d, "MCSpinAsm", "MCSpinAsmQ3", {"Drain", "PlainRel", "XchgWrite"})
-        coverage_guard(ctx, d, "MCSpinAsm", "MCSpinAsmF2TSOPlainRel", {"XchgWrite"})
+        coverage_guard(ctx, d, "MCSpinAsm", "MCSpinAsmQ3", {"Drain", "PlainRel", "XchgWrite", "Env"})
+        coverage_guard(ctx, d, "MCSpinAsm", "MCSpinAsmF2TSOPlainRel", {"XchgWrite", "Env"})
     # ---- leg M, instruction level, on the table extracted from the current sources
     if q:
         cfgs = [("MCSpinAsmQ3", 300), ("MCSpinAsmQ2Live", 300), ("MCSpinAsmQ2TSO", 300)]
         muts = ["MCSpinAsmBug_XchgNotAtomic", "MCSpinAsmBug_BufferNotFifo"]
     else:
-        cfgs = [("MCSpinAsmF3", 900), ("MCSpinAsmF3NoYield", 900), ("MCSpinAsmQ2Live", 600), ("MCSpinAsmF4", 900),
-                ("MCSpinAsmF3TSO", 900), ("MCSpinAsmQ2TSO", 600)]
+        cfgs = [("MCSpinAsmF3", 900), ("MCSpinAsmF3NoYield", 900), ("MCSpinAsmF3Env", 900), ("MCSpinAsmQ2Live", 600),
+                ("MCSpinAsmQ2EnvLive", 600), ("MCSpinAsmF3Live", 900), ("MCSpinAsmF4", 900), ("MCSpinAsmF3TSO", 900),
+                ("MCSpinAsmQ2TSO", 600)]
         muts = ["MCSpinAsmBug_XchgNotAtomic", "MCSpinAsmBug_BufferNotFifo"]
     if os.environ.get("VERIF_CONC_DYNAMIC_ONLY") != "1":      # development switch: measure the dynamic legs alone
         asm_leg(ctx, d, cfgs, muts)
@@ -219,8 +222,13 @@ def run(ctx):
         ctx.note("dynamic legs did not complete on code whose extracted model already violates the specification: %s" % str(e)[:300])
         stuck_all, lines, total = [], [], -1
     if stuck_all and not ctx.violations:
+        extra = ""
+        if stuck_all[0].get("op") == "acq" and stuck_all[0].get("c", 0) > 0:
+            extra = ("; while it waited a third task took and released the lock %d times, i.e. the lock was provably free - "
+                     "a waiter may lose every such race on a correct lock, so this is reported as inconclusive, the "
+                     "instruction-level model decides" % stuck_all[0]["c"])
         raise vlib.Broken("inconclusive: a call on the real lock did not return within the deadline (%s) and no recorded "
-                          "event contradicts the specification" % json.dumps(stuck_all[0]))
+                          "event contradicts the specification%s" % (json.dumps(stuck_all[0]), extra))
     if stuck_all:
         ctx.note("a call on the real lock did not return within the deadline: %s" % json.dumps(stuck_all[0]))
     ctx.cov["exhaustive"] = (not q) and not ctx.violations and len(lines) == total
